@@ -193,3 +193,45 @@ func osReadDirNames(dir string) ([]string, error) {
 func validJSONString(s string) bool { return gjson.Valid(s) }
 
 func removeFile(p string) { os.Remove(p) }
+
+// structText builds a text of 1..k lines, each line one of eight shapes around
+// the storage format's special tokens, with symbolic filler bytes:
+//
+//	""  c  ---  /-/-/-/  c---  ---c  c---c  c/-/-/-/c        (c = one symbolic byte)
+//
+// This reaches the line-structured corner cases (adjacent terminators,
+// padded terminators, tokens embedded in longer lines) that fully symbolic
+// texts only reach at lengths of 7..11 bytes.
+func structText(label string, k int) string {
+	nl := vxrt.Len(label+"-lines", 1, k)
+	out := ""
+	sym := func() string {
+		c := vxrt.Text(label+"-c", 1)
+		// filler: not a newline, not CR, not a tabwriter control byte, ASCII
+		vxrt.Assume(vxrt.And(vxrt.And(c[0] != '\n', c[0] != '\r'), vxrt.And(plainText(c), c[0] < 0x80)))
+		return c
+	}
+	for i := 0; i < nl; i++ {
+		if i > 0 {
+			out += "\n"
+		}
+		switch vxrt.Choice(label+"-shape", 8) {
+		case 0:
+		case 1:
+			out += sym()
+		case 2:
+			out += "---"
+		case 3:
+			out += "/-/-/-/"
+		case 4:
+			out += sym() + "---"
+		case 5:
+			out += "---" + sym()
+		case 6:
+			out += sym() + "---" + sym()
+		default:
+			out += sym() + "/-/-/-/" + sym()
+		}
+	}
+	return out
+}
